@@ -465,6 +465,9 @@ struct Fill {
     unk_proto: u8,
     raw_wild: bool,
     dns_sport_flip: bool,
+    /// a DNS response that is right in everything but one attribute: 0 = none, 1 = sent to another
+    /// port than the query's, 2 = sent to the query's port with another transaction id
+    dns_near_miss: u8,
     /// low-bit donor / solicited-node donor is the second (link-local) own address
     donor2: bool,
     foreign_offlink_prefix: bool,
@@ -497,6 +500,7 @@ impl Fill {
             unk_proto: 253,
             raw_wild: false,
             dns_sport_flip: false,
+            dns_near_miss: 0,
             donor2: false,
             foreign_offlink_prefix: false,
             bcast2: false,
@@ -573,6 +577,8 @@ impl Fill {
         f.foreign_offlink_prefix = src.bool();
         f.bcast2 = src.bool();
         f.loop_var = src.bool();
+        // (appended last: saved tapes end before this draw and read 0 = none)
+        f.dns_near_miss = src.weighted(&[2, 1, 1]) as u8;
         f
     }
 }
@@ -981,6 +987,8 @@ struct Pkt {
     payload: Vec<u8>,
     desc: String,
     targets_dns: bool,
+    /// a DNS response differing from the awaited one in the destination port or the txid only
+    near_miss: bool,
 }
 
 fn dns_response(txid: u16, v6: bool) -> Vec<u8> {
@@ -1015,6 +1023,7 @@ fn build_packet(c: &Coord, f: &Fill, a: &Addrs, w: &World) -> Pkt {
     let mut payload = f.payload.clone();
     let mut key = port;
     let mut targets_dns = false;
+    let mut near_miss = false;
     let desc;
     let ip: IpPkt = match c.proto {
         Proto::TcpSyn | Proto::TcpAck | Proto::TcpRst | Proto::TcpData => {
@@ -1055,6 +1064,22 @@ fn build_packet(c: &Coord, f: &Fill, a: &Addrs, w: &World) -> Pkt {
                     let from_server = c.src == SrcC::OnLink;
                     sport = if from_server != f.dns_sport_flip { 53 } else { 5353 };
                     targets_dns = true;
+                }
+            } else if c.dns && f.dns_near_miss != 0 {
+                if let Some((qport, txid)) = w.socks.dns_wire {
+                    // from the server's port 53 and well-formed: the only thing that tells this
+                    // datagram from the awaited answer is the destination port / the transaction id
+                    sport = 53;
+                    if f.dns_near_miss == 1 {
+                        if dport == qport {
+                            dport ^= 1;
+                        }
+                        payload = dns_response(txid, c.v6);
+                    } else {
+                        dport = qport;
+                        payload = dns_response(txid ^ 0x0101, c.v6);
+                    }
+                    near_miss = true;
                 }
             }
             key = dport;
@@ -1160,7 +1185,7 @@ fn build_packet(c: &Coord, f: &Fill, a: &Addrs, w: &World) -> Pkt {
         let l2src = f.rand_mac.unwrap_or(if c.src == SrcC::OffLink { GW_MAC } else { PEER_MAC });
         wrap_l2(w.med == Med::Eth, l2dst, l2src, &ip)
     };
-    Pkt { frame, src, dst, sport, key, payload, desc, targets_dns }
+    Pkt { frame, src, dst, sport, key, payload, desc, targets_dns, near_miss }
 }
 
 /// The independent decoder confirms that the injected frame is a well-formed packet of the class.
@@ -1409,6 +1434,9 @@ fn run_cell(c: &Coord, f: &Fill, ctx: &mut Ctx) -> Result<Vec<Fail>, Fail> {
     }
     if pkt.targets_dns {
         ctx.label("pkt:dns-response-to-query-port");
+    }
+    if pkt.near_miss {
+        ctx.label(if f.dns_near_miss == 1 { "pkt:dns-response-to-another-port" } else { "pkt:dns-response-with-another-txid" });
     }
     if eth && !f.cached {
         ctx.label("cfg:neighbour-cache-empty");
